@@ -36,7 +36,7 @@ theorem rest_not_last (next : Nat) (b : BlockIn) :
   intro op hop
   simp only [List.mem_append, List.mem_singleton, smtPart, idxPart, statePart, commitBatch, List.mem_map] at hop
   have hne := last_ne
-  rcases hop with ((rfl | ⟨e, _, rfl⟩) | hst) | ⟨e, _, rfl⟩
+  rcases hop with ((rfl | ⟨e, _, rfl⟩) | hst) | (⟨e, _, rfl⟩ | ⟨e, _, rfl⟩)
   · intro h; exact (hne (joinLenPrefix [decimal next])).1 (mkKey_uk_inj h).symm
   · intro h; exact (hne e.1).1 (mkKey_uk_inj h).symm
   · rcases hst with (⟨e, _, rfl⟩ | ⟨e, _, rfl⟩) | hd
@@ -45,6 +45,7 @@ theorem rest_not_last (next : Nat) (b : BlockIn) :
     · obtain ⟨e, _, rfl⟩ := mem_filterMap_delOf hd
       intro h; exact (hne e.1).2.2.1 (mkKey_uk_inj h).symm
   · intro h; exact (hne e.1).2.1 (mkKey_uk_inj h).symm
+  · intro h; exact (hne e).2.1 (mkKey_uk_inj h).symm
 
 theorem batchLookup_of_not_key {b : List BatchOp} {key : Bytes} (h : ∀ op ∈ b, opKey op ≠ key) :
     batchLookup b key = none := by
@@ -197,7 +198,7 @@ theorem batch_versions (next : Nat) (b : BlockIn) :
   intro op hop
   simp only [List.mem_append, cidPart, List.mem_cons, List.not_mem_nil, or_false, smtPart, idxPart,
     statePart, commitBatch, List.mem_map] at hop
-  rcases hop with (((rfl | rfl) | ⟨e, _, rfl⟩) | hst) | ⟨e, _, rfl⟩
+  rcases hop with (((rfl | rfl) | ⟨e, _, rfl⟩) | hst) | (⟨e, _, rfl⟩ | ⟨e, _, rfl⟩)
   · exact ⟨_, _, rfl, Or.inr rfl⟩
   · exact ⟨_, _, rfl, Or.inl rfl⟩
   · exact ⟨_, _, rfl, Or.inl rfl⟩
@@ -206,6 +207,7 @@ theorem batch_versions (next : Nat) (b : BlockIn) :
     · exact ⟨_, _, rfl, Or.inl rfl⟩
     · obtain ⟨e, _, rfl⟩ := mem_filterMap_delOf hd
       exact ⟨_, _, rfl, Or.inr rfl⟩
+  · exact ⟨_, _, rfl, Or.inl rfl⟩
   · exact ⟨_, _, rfl, Or.inl rfl⟩
 
 /-- committing block `next` leaves every versioned entry below `next` (and below 2^64-1) as it was -/
@@ -244,7 +246,7 @@ theorem rest_not_cid (next : Nat) (b : BlockIn) (hb : SmtOK b) :
   intro op hop
   simp only [List.mem_append, smtPart, idxPart, statePart, commitBatch, List.mem_map] at hop
   have hne := commitIDKey_ne
-  rcases hop with (⟨e, he, rfl⟩ | hst) | ⟨e, _, rfl⟩
+  rcases hop with (⟨e, he, rfl⟩ | hst) | (⟨e, _, rfl⟩ | ⟨e, _, rfl⟩)
   · intro h
     have := mkKey_uk_inj h
     unfold commitIDKey at this
@@ -255,6 +257,7 @@ theorem rest_not_cid (next : Nat) (b : BlockIn) (hb : SmtOK b) :
     · obtain ⟨e, _, rfl⟩ := mem_filterMap_delOf hd
       intro h; exact (hne e.1 next).2.1 (mkKey_uk_inj h).symm
   · intro h; exact (hne e.1 next).1 (mkKey_uk_inj h).symm
+  · intro h; exact (hne e next).1 (mkKey_uk_inj h).symm
 
 /-- a single-batch block commit records the commit id of its height -/
 theorem cid_after_single (d : Disk) (next : Nat) (b : BlockIn) (hb : SmtOK b) :
@@ -479,5 +482,92 @@ theorem take_runEv_single (p : PtrAt) (evs : List Ev) : ∀ (d : Disk) (j : Nat)
         show (runEv .single p (applyEv .single p d ev) evs).take j = _
         rw [hX, h, List.append_assoc, hjd, List.take_left' rfl]
         simp [runEv]
+
+/-! ## nested transactions -/
+
+/-- the last operation a list of writes makes on `k` -/
+def lastWrite : List (Bytes × TOp) → Bytes → Option TOp
+  | [], _ => none
+  | e :: l, k =>
+    match lastWrite l k with
+    | some x => some x
+    | none => if k = e.1 then some e.2 else none
+
+theorem smGet_writeAll (ws : List (Bytes × TOp)) : ∀ (acc : Overlay) (k : Bytes),
+    smGet (writeAll acc ws) k = match lastWrite ws k with
+      | some x => some x
+      | none => smGet acc k := by
+  induction ws with
+  | nil => intro acc k; rfl
+  | cons e ws ih =>
+    intro acc k
+    show smGet (writeAll (smSet acc e.1 e.2) ws) k = _
+    rw [ih, smGet_smSet]
+    simp only [lastWrite]
+    cases lastWrite ws k with
+    | some x => rfl
+    | none => by_cases h : k = e.1 <;> simp [h]
+
+theorem sorted_writeAll (ws : List (Bytes × TOp)) : ∀ (acc : Overlay), SSorted acc → SSorted (writeAll acc ws) := by
+  induction ws with
+  | nil => intro acc h; exact h
+  | cons e ws ih => intro acc h; exact ih _ (sorted_smSet h e.1 e.2)
+
+theorem sorted_applyTx (nf : NestedFlush) (acc : Overlay × Overlay) (tx : TxIn) (h : SSorted acc.1 ∧ SSorted acc.2) :
+    SSorted (applyTx nf acc tx).1 ∧ SSorted (applyTx nf acc tx).2 := by
+  unfold applyTx
+  by_cases hf : tx.flush = true
+  · rw [if_pos hf]
+    cases nf
+    · exact ⟨sorted_writeAll _ _ h.1, sorted_writeAll _ _ h.2⟩
+    · exact ⟨sorted_writeAll _ _ h.1, h.2⟩
+  · rw [if_neg hf]; exact h
+
+theorem sorted_foldl_applyTx (nf : NestedFlush) (txs : List TxIn) : ∀ (acc : Overlay × Overlay),
+    SSorted acc.1 ∧ SSorted acc.2 →
+    SSorted (txs.foldl (applyTx nf) acc).1 ∧ SSorted (txs.foldl (applyTx nf) acc).2 := by
+  induction txs with
+  | nil => intro acc h; exact h
+  | cons tx txs ih => intro acc h; exact ih _ (sorted_applyTx nf acc tx h)
+
+/-- **a flushed transaction's writes reach the block — state and index alike** (with `Flush` handing both
+nested transactions to the parent): whatever the block's own writes and the earlier transactions were, the
+last operation the transaction made on a state key is the block's pending operation on that key, an index
+entry it wrote last is among the block's index entries, an index key it deleted last among the block's index
+deletions. `crash_prefix` then says the block is on disk entirely or not at all. -/
+theorem flushed_tx_reaches_block (own : BlockIn) (hown : SSorted own.ops) (txs : List TxIn) (tx : TxIn) (hf : tx.flush = true) :
+    let b := blockOfTxs .both own (txs ++ [tx])
+    (∀ k op, lastWrite tx.ops k = some op → smGet b.ops k = some op) ∧
+    (∀ k v, lastWrite tx.idx k = some (.set v) → (k, v) ∈ b.idx) ∧
+    (∀ k, lastWrite tx.idx k = some .del → k ∈ b.idxDel) := by
+  simp only [blockOfTxs, pendingOfTxs, List.foldl_append, List.foldl_cons, List.foldl_nil]
+  generalize hacc : txs.foldl (applyTx .both) (own.ops, writeAll [] (own.idx.map (fun e => (e.1, TOp.set e.2)) ++ own.idxDel.map (fun k => (k, TOp.del)))) = acc
+  have hs : SSorted acc.1 ∧ SSorted acc.2 := by
+    rw [← hacc]
+    exact sorted_foldl_applyTx .both txs _ ⟨hown, sorted_writeAll _ _ List.Pairwise.nil⟩
+  have hap : applyTx .both acc tx = (writeAll acc.1 tx.ops, writeAll acc.2 tx.idx) := by
+    unfold applyTx; rw [if_pos hf]
+  rw [hap]
+  refine ⟨?_, ?_, ?_⟩
+  · intro k op h
+    simp only
+    rw [smGet_writeAll, h]
+  · intro k v h
+    simp only
+    have hg : smGet (writeAll acc.2 tx.idx) k = some (.set v) := by rw [smGet_writeAll, h]
+    have hm := (smGet_eq_some_iff (sorted_writeAll _ _ hs.2) _ _).mp hg
+    exact List.mem_filterMap.mpr ⟨_, hm, rfl⟩
+  · intro k h
+    simp only
+    have hg : smGet (writeAll acc.2 tx.idx) k = some .del := by rw [smGet_writeAll, h]
+    have hm := (smGet_eq_some_iff (sorted_writeAll _ _ hs.2) _ _).mp hg
+    exact List.mem_filterMap.mpr ⟨_, hm, rfl⟩
+
+/-- a discarded transaction leaves no trace, in either partition -/
+theorem discarded_tx_vanishes (nf : NestedFlush) (own : BlockIn) (txs : List TxIn) (tx : TxIn) (hf : tx.flush = false)
+    (rest : List TxIn) : blockOfTxs nf own (txs ++ tx :: rest) = blockOfTxs nf own (txs ++ rest) := by
+  simp only [blockOfTxs, pendingOfTxs, List.foldl_append, List.foldl_cons]
+  have : ∀ acc, applyTx nf acc tx = acc := by intro acc; unfold applyTx; rw [if_neg (by simp [hf])]
+  rw [this]
 
 end Canopy.Crash
